@@ -314,7 +314,11 @@ func (e *Engine) checkFormat(fn *ssa.Function, c *ssa.CallCommon, fi int, add fu
 			add(pos, "%%p prints an address")
 		case 'T':
 		default:
-			if r := addressFree(a.typ, 0, map[types.Type]bool{}); r != "" {
+			// fmt calls Error()/String() only for the verbs that are valid for strings (%v %s %q %x %X); with
+			// any other verb (%d, %t, ...) the operand is formatted from its raw representation, so a struct
+			// that wraps a pointer (math.Int wraps an unexported *big.Int) prints an address
+			noMethods := !strings.ContainsRune("vsqxX", rune(verb))
+			if r := addressFree2(a.typ, 0, map[types.Type]bool{}, noMethods); r != "" {
 				add(pos, "%%%c of %s: %s", verb, a.typ, r)
 			}
 		}
